@@ -1,6 +1,7 @@
 import GV.Model.Link
 import GV.Model.Linkname
 import GV.Proofs.LinkDeps
+import GV.Proofs.LinkInit
 import GV.Proofs.LinknameLemmas
 import GV.Props.C17
 
@@ -102,6 +103,96 @@ example : importDependencies (fun p => if p = 4 then [3, 2] else if p = 3 then [
 
 end Deps
 
+/-! ## 1b. The `$init` protocol -/
+
+section Init
+variable {α : Type} [DecidableEq α]
+open GV.Proofs.LinkInit
+
+/-- What the property demands of the event trace `T` of a program run. -/
+def InitOrderOK (G : Prog α) (sched : α → Nat → Nat) (runtime main : α) (T : List (Ev α)) : Prop :=
+  -- every package is initialised at most once, and an initialisation that started also completes
+  (∀ p, T.count (Ev.enter p) ≤ 1 ∧ T.count (Ev.done p) = T.count (Ev.enter p)) ∧
+  -- every body item (variable initialiser, init function, main.main) of an initialised package runs exactly once
+  (∀ p i, T.count (Ev.begin p i) = if Ev.enter p ∈ T ∧ i < G.nitems p then 1 else 0) ∧
+  -- exactly the packages reachable from `runtime` or from the main package are initialised
+  (∀ p, Ev.enter p ∈ T ↔ (Reach G.imports runtime p ∨ Reach G.imports main p)) ∧
+  -- a body item of `p` begins only after the initialisation of every import of `p` has COMPLETED …
+  (∀ pre p i post, T = pre ++ Ev.begin p i :: post → ∀ q ∈ G.imports p, Ev.done q ∈ pre) ∧
+  -- … and completion of a package means that all its body items have finished
+  (∀ pre p post, T = pre ++ Ev.done p :: post → ∀ i, i < G.nitems p → Ev.fin p i ∈ pre) ∧
+  -- nothing overtakes a suspended initialiser: between the begin and the end of an item there are only its own
+  -- suspensions
+  (∀ pre q i post, T = pre ++ Ev.begin q i :: post →
+    ∃ post', post = List.replicate (sched q i) Ev.yield ++ Ev.fin q i :: post')
+
+/-- **machine_eq_direct** — the state machine (explicit stack of `$init` activations, self-replacement, resumption),
+    started as the emitted program starts it, runs to an empty stack and its trace is `programTrace`. -/
+theorem machine_eq_direct (G : Prog α) (sched : α → Nat → Nat) (rank : α → Nat) (hac : Acyclic G.imports rank)
+    (fuel : Nat) (runtime main : α) (hr0 : rank runtime < fuel) (hr1 : rank main < fuel) :
+    ∃ n m, (steps G sched m (call G (steps G sched n (bootState G runtime)) main)).stack = [] ∧
+      (steps G sched m (call G (steps G sched n (bootState G runtime)) main)).trace
+        = programTrace G sched fuel runtime main := by
+  obtain ⟨n, m, h⟩ := machine_program G sched fuel runtime main rank hac hr0 hr1
+  exact ⟨n, m, by rw [h], by rw [h]⟩
+
+/-- **init_once_after_imports** — for every acyclic import graph and EVERY suspension schedule `sched` (each body
+    item may suspend any number of times), the run of the `$init` protocol initialises each reachable package
+    exactly once, runs each of its body items exactly once and only after the initialisation of all the packages it
+    imports has completed, and nothing overtakes a suspended initialiser.
+    `hsync` records the one assumption the emitted program makes: `$packages["runtime"].$init()` is called
+    synchronously, outside any goroutine, so the initialisers in the closure of `runtime` must not suspend. -/
+theorem init_once_after_imports (G : Prog α) (sched : α → Nat → Nat) (rank : α → Nat) (hac : Acyclic G.imports rank)
+    (fuel : Nat) (runtime main : α) (hr0 : rank runtime < fuel) (hr1 : rank main < fuel)
+    (_hsync : ∀ p, Reach G.imports runtime p → ∀ i, sched p i = 0) :
+    ∃ n m, (steps G sched m (call G (steps G sched n (bootState G runtime)) main)).stack = [] ∧
+      InitOrderOK G sched runtime main (steps G sched m (call G (steps G sched n (bootState G runtime)) main)).trace := by
+  obtain ⟨n, m, h1, h2⟩ := machine_eq_direct G sched rank hac fuel runtime main hr0 hr1
+  refine ⟨n, m, h1, ?_⟩
+  rw [h2]
+  obtain ⟨a, b, c, d, e⟩ := init_once_after_imports_rec G sched fuel runtime main rank hac hr0 hr1
+  exact ⟨a, b, c, d, e, no_overtaking_program G sched fuel runtime main⟩
+
+/-- **init_suspension_invisible** — the schedule changes nothing but the suspensions themselves: with the `yield`
+    events removed, the trace equals the trace of the run in which nothing ever suspends. -/
+theorem init_suspension_invisible (G : Prog α) (sched : α → Nat → Nat) (fuel : Nat) (runtime main : α) :
+    (programTrace G sched fuel runtime main).filter (fun e => decide (e ≠ Ev.yield))
+      = (programTrace G (fun _ _ => 0) fuel runtime main).filter (fun e => decide (e ≠ Ev.yield)) :=
+  programTrace_sched_irrelevant G sched fuel runtime main
+
+/-- **no_overtaking** (stated on its own) -/
+theorem no_overtaking (G : Prog α) (sched : α → Nat → Nat) (fuel : Nat) (runtime main : α)
+    (pre : List (Ev α)) (q : α) (i : Nat) (post : List (Ev α))
+    (h : programTrace G sched fuel runtime main = pre ++ Ev.begin q i :: post) :
+    ∃ post', post = List.replicate (sched q i) Ev.yield ++ Ev.fin q i :: post' :=
+  no_overtaking_program G sched fuel runtime main pre q i post h
+
+/-- the hypotheses are satisfiable by a non-trivial program: a diamond over `runtime` where the items of the
+    non-runtime packages suspend -/
+example : ∃ (G : Prog Nat) (sched : Nat → Nat → Nat) (rank : Nat → Nat),
+    Acyclic G.imports rank ∧ rank 0 < 5 ∧ rank 3 < 5 ∧ (∀ p, Reach G.imports 0 p → ∀ i, sched p i = 0) ∧
+    (programTrace G sched 5 0 3).length = 36 := by
+  refine ⟨⟨fun p => if p = 3 then [1, 2] else if p = 2 then [1, 0] else if p = 1 then [0] else [], fun _ => 2⟩,
+    fun p _ => if p = 0 then 0 else 2, id, ?_, by decide, by decide, ?_, by decide⟩
+  · intro p q hq
+    simp only at hq
+    split at hq
+    · simp only [List.mem_cons, List.not_mem_nil, or_false] at hq; simp only [id]; omega
+    · split at hq
+      · simp only [List.mem_cons, List.not_mem_nil, or_false] at hq; simp only [id]; omega
+      · split at hq
+        · simp only [List.mem_cons, List.not_mem_nil, or_false] at hq; simp only [id]; omega
+        · simp at hq
+  · intro p hp
+    have : p = 0 := by
+      cases hp with
+      | refl => rfl
+      | step hq _ => simp at hq
+    subst this
+    intro i; simp
+
+end Init
+
 /-! ## 2. Variable order -/
 
 /-- **var_order** — `varDecls` (decls.go:215-248) emits the synthetic zero initialisers before `InitOrder`. If
@@ -198,6 +289,60 @@ theorem file_order_any_sort (l r : List String) (hperm : r.Perm l) (hsorted : r.
   · exact hsorted.imp (fun h => by simpa using h)
   · exact List.pairwise_mergeSort ge_trans ge_total l
   · exact hperm.trans (List.mergeSort_perm l _).symm
+
+theorem flatMap_congr' {β γ : Type} (l : List β) (f g : β → List γ) (h : ∀ x ∈ l, f x = g x) :
+    l.flatMap f = l.flatMap g := by
+  induction l with
+  | nil => rfl
+  | cons a as ih =>
+    simp only [List.flatMap_cons]
+    rw [h a List.mem_cons_self, ih (fun x hx => h x (List.mem_cons_of_mem _ hx))]
+
+theorem find_by_name {fs : List File} (hn : (fs.map (·.name)).Nodup) {a : File} (ha : a ∈ fs) :
+    fs.find? (fun f => f.name == a.name) = some a := by
+  induction fs with
+  | nil => cases ha
+  | cons x xs ih =>
+    simp only [List.map_cons, List.nodup_cons] at hn
+    rw [List.find?_cons]
+    by_cases hx : x.name = a.name
+    · have : x = a := by
+        rcases List.mem_cons.mp ha with h | h
+        · exact h.symm
+        · exact absurd (hx ▸ List.mem_map_of_mem (f := (·.name)) h) hn.1
+      subst this
+      simp
+    · have hax : a ∈ xs := by
+        rcases List.mem_cons.mp ha with h | h
+        · exact absurd (by rw [h]) hx
+        · exact h
+      have hb : (x.name == a.name) = false := by simpa using hx
+      simp only [hb]
+      exact ih hn.2 hax
+
+/-- **init_calls_order** — the sequence of `init()` calls of a package (files in `Sources.Sort` order, the `init`s of
+    a file in source order) depends only on the SET of files, not on the order in which they were listed. -/
+theorem init_calls_order (fs₁ fs₂ : List File) (h : fs₁.Perm fs₂) (hn : (fs₁.map (·.name)).Nodup) :
+    initCalls fs₁ = initCalls fs₂ := by
+  have hn2 : (fs₂.map (·.name)).Nodup := (h.map (·.name)).nodup_iff.mp hn
+  unfold initCalls
+  rw [file_order _ _ (h.map (·.name))]
+  apply flatMap_congr'
+  intro n _
+  have : fs₁.find? (fun f => f.name == n) = fs₂.find? (fun f => f.name == n) := by
+    cases h1 : fs₁.find? (fun f => f.name == n) with
+    | some a =>
+      have ha := List.mem_of_find?_eq_some h1
+      have hp := List.find?_some h1
+      have hname : a.name = n := by simpa using hp
+      rw [← hname]
+      exact (find_by_name hn2 (h.subset ha)).symm
+    | none =>
+      symm
+      rw [List.find?_eq_none] at h1 ⊢
+      intro x hx
+      exact h1 x (h.symm.subset hx)
+  rw [this]
 
 /-- **import_order** — the import initialisers are called in an order that depends only on the set of imported paths -/
 theorem import_order (l₁ l₂ : List String) (h : l₁.Perm l₂) : sortImports l₁ = sortImports l₂ :=
@@ -323,6 +468,30 @@ theorem isMethod_split (pkg recv m : Text) (h : '.' ∉ recv) :
     have : recv ++ '.' :: m = (recv ++ ['.']) ++ m := by simp
     rw [this, List.drop_left' (by simp)]
   simp only [e1, e2]
+
+/-- A package whose last path element contains a dot cannot be named by any of the two spellings: neither the
+    escaped one that gc requires (`%2e`, not unescaped by `readLinknameFromComment`) nor the plain one (split at the
+    wrong dot) resolves to `m/pk.v2.impl`. Witness replayed against the real compiler by checks/c10.py. -/
+theorem linkname_dotted_package_counterexample :
+    (∀ l, readLinkname "m".toList "//go:linkname f m/pk%2ev2.impl".toList = .link l →
+      resolve [l] [⟨"m/pk.v2".toList, "impl".toList⟩] ⟨"m".toList, "f".toList⟩ = none) ∧
+    (∀ l, readLinkname "m".toList "//go:linkname f m/pk.v2.impl".toList = .link l →
+      resolve [l] [⟨"m/pk.v2".toList, "impl".toList⟩] ⟨"m".toList, "f".toList⟩ = none) ∧
+    (∃ l, readLinkname "m".toList "//go:linkname f m/pk%2ev2.impl".toList = .link l) := by
+  refine ⟨?_, ?_, ?_⟩
+  · intro l h
+    have : l = ⟨⟨"m".toList, "f".toList⟩, ⟨"m/pk%2ev2".toList, "impl".toList⟩⟩ := by
+      have h' : readLinkname "m".toList "//go:linkname f m/pk%2ev2.impl".toList
+          = .link ⟨⟨"m".toList, "f".toList⟩, ⟨"m/pk%2ev2".toList, "impl".toList⟩⟩ := by decide
+      rw [h'] at h; exact (Read.link.inj h).symm
+    subst this; decide
+  · intro l h
+    have : l = ⟨⟨"m".toList, "f".toList⟩, ⟨"m/pk".toList, "v2.impl".toList⟩⟩ := by
+      have h' : readLinkname "m".toList "//go:linkname f m/pk.v2.impl".toList
+          = .link ⟨⟨"m".toList, "f".toList⟩, ⟨"m/pk".toList, "v2.impl".toList⟩⟩ := by decide
+      rw [h'] at h; exact (Read.link.inj h).symm
+    subst this; decide
+  · exact ⟨⟨⟨"m".toList, "f".toList⟩, ⟨"m/pk%2ev2".toList, "impl".toList⟩⟩, by decide⟩
 
 /-- **ismethod_value** — `importpath.Type.name` -/
 theorem ismethod_value (pkg typ name : Text) (h1 : '.' ∉ typ) (h2 : typ.head? ≠ some '(') :
